@@ -25,7 +25,7 @@ PROPS = {
     "C13": dict(
         driver="C13",
         model="Model/Encode.v + Model/ResultDecode.v",
-        run_fn="run_c13case",
+        run_fn="run_c13case_fixed",
         theorems=["C13_encode_matches_abi_except_h20_h24", "C13_h20_splice_to_direct_swaps_tables",
                   "C13_h24_statx_direct_is_refused", "C13_encode_matches_abi_h20_refuted",
                   "C13_encode_matches_abi_h24_refuted", "C13_encode_matches_abi_fails",
